@@ -230,6 +230,8 @@ func runC05(t *testing.T, c *choice.Stream, r *Result, opt RunOpt) {
 	sizesWhich := c.Draw("sizes.which", 3)
 	sizesRaw := uint32(c.Pick("sizes.raw", 1<<27+10, 1<<30, 0xffffffff))
 	sizesData := uint32(c.Pick("sizes.data", 1<<27+1, 1<<30, 0xffffffff))
+	sizesInner := c.Bool("sizes.inner", 1, 3)
+	sizesInnerFCS := uint64(c.Pick("sizes.inner.fcs", 1<<28, 1<<30, 3<<30))
 	cutDraw := c.Draw("cut.off", 1<<30)
 	segSeed := uint64(c.Draw("src.seg", 1<<31-1))
 	srcMaxSeg := c.Pick("src.maxseg", 1, 7, 64, 4096, 1<<20)
@@ -276,6 +278,16 @@ func runC05(t *testing.T, c *choice.Stream, r *Result, opt RunOpt) {
 			binary.LittleEndian.PutUint32(hdr[17:], raw)
 			binary.LittleEndian.PutUint32(hdr[21:], ds)
 			body := make([]byte, 16)
+			if sizesInner {
+				// the envelope is modest and honest; the size that is beyond every limit
+				// is the content size the ZSTD frame inside declares for itself
+				body = []byte{0x28, 0xB5, 0x2F, 0xFD, 0xC0, 0x00} // magic, descriptor: 8-byte content size, window descriptor follows; 1 KiB window
+				body = binary.LittleEndian.AppendUint64(body, sizesInnerFCS)
+				body = append(body, 0x01, 0x00, 0x00) // last block, raw, empty
+				hdr[16] = 0x90
+				binary.LittleEndian.PutUint32(hdr[17:], uint32(9+len(body)))
+				binary.LittleEndian.PutUint32(hdr[21:], 16)
+			}
 			h := city.CH128(append(append([]byte{}, hdr[16:]...), body...))
 			binary.LittleEndian.PutUint64(hdr[0:], h.Low)
 			binary.LittleEndian.PutUint64(hdr[8:], h.High)
